@@ -1465,6 +1465,17 @@ class Circuit(Unitary, StateVectorMap, Collection[Operation]):
             self.insert(cycle_index, op)
             return
 
+        # Out-of-range cycles mean "append" (see insert); inserting the
+        # operations one by one in reverse would scramble their order.
+        if self.num_cycles == 0 or cycle_index >= self.num_cycles:
+            self.append_circuit(circuit, location)
+            return
+
+        if cycle_index < -self.num_cycles:
+            cycle_index = 0
+        elif cycle_index < 0:
+            cycle_index += self.num_cycles
+
         for op in reversed(circuit):
             mapped_location = [location[q] for q in op.location]
             self.insert(
